@@ -9,6 +9,7 @@ import (
 func init() {
 	env.Register("C06_Quorum", C06_Quorum)
 	env.Register("C06_IdShapes", C06_IdShapes)
+	env.Register("C06_Large", C06_Large)
 }
 
 // reference: weight of the committee members whose id occurs in the list (each member once)
@@ -173,5 +174,35 @@ func C06_IdShapes() {
 	env.Assert("C06.hashonest_def", hon == (ref > fRef))
 	if isQ {
 		env.Reach("C06.shapes.quorum")
+	}
+}
+
+// C06_Large: a large committee (n members, ids 1..n, unit weights) and a list made of m copies of one arbitrary
+// one-byte id x followed by another arbitrary id y (duplicates and outsiders included): the reported weight counts
+// every listed member once, wherever it sits in the committee order.
+func C06_Large() {
+	n := env.Param("n")
+	m := env.Param("m")
+	members := make([]interfaces.CommitteeMember, n)
+	for i := 0; i < n; i++ {
+		members[i] = interfaces.CommitteeMember{Id: primitives.MemberId{byte(i + 1)}, Weight: 1}
+	}
+	x, y := env.NondetU8("x"), env.NondetU8("y")
+	var list []primitives.MemberId
+	for k := 0; k < m; k++ {
+		list = append(list, primitives.MemberId{x})
+	}
+	list = append(list, primitives.MemberId{y})
+	isMember := func(id byte) bool { return env.And(id >= 1, uint64(id) <= uint64(n)) }
+	ref := env.IteU64(isMember(x), 1, 0) + env.IteU64(env.And(isMember(y), y != x), 1, 0)
+	total := uint64(n)
+	fRef := (total - 1) / 3
+	isQ, wq, _ := IsQuorum(list, members)
+	hon, wh, _ := HasHonest(list, members)
+	env.Assert("C06.weight", env.And(uint64(wq) == ref, uint64(wh) == ref))
+	env.Assert("C06.isquorum_def", isQ == (ref >= total-fRef))
+	env.Assert("C06.hashonest_def", hon == (ref > fRef))
+	if uint64(wq) == 2 {
+		env.Reach("C06.large.two_members")
 	}
 }
